@@ -90,7 +90,9 @@ def handleFresh13 (l : Line) : List Verdict :=
     let dups ← l.nat? "dups"
     let minlen ← l.nat? "minlen"
     let total ← l.nat? "total"
-    pure (verdictsOf [] ((if dups > 0 then [("C13.reused", s!"{dups} repeated state/nonce/verifier/jti values among {total}")] else []) ++
+    let overlaps ← l.nat? "overlaps"
+    pure (verdictsOf [] ((if overlaps > 0 then [("C13.reused", s!"{overlaps} of {total} state / nonce / verifier values contain a run of 12 random bytes that also occurs in ANOTHER value: the same random bytes were handed out twice")] else []) ++
+                         (if dups > 0 then [("C13.reused", s!"{dups} repeated state/nonce/verifier/jti values among {total}")] else []) ++
                          (if total > 0 && minlen < 36 then [("C13.short", s!"shortest value has {minlen} characters")] else [])))
   r.getD [Verdict.bad "fresh13"]
 
